@@ -6,7 +6,7 @@ CLAIMED = {
  # id: (engine, technique, level text, level note, design ref)
  "C01": ("SIM-A", "deterministic pipeline simulation (seeded instances x hash seeds x worker pools) + REF itinerary oracle",
          "Sampled exploration: thousands of seeded valid instances are solved by the real server::solve_instance and internal::run inside the simulator (owned hash seeds, per-run rayon pool) and every returned itinerary is re-checked by an independent reference model of the timing rule. Right level because the property quantifies over inputs and over the solve's own nondeterminism; there is no fault to enumerate.",
-         "REF's reading of the timing rule (DESIGN 3); instances <= 12 segments; sampling only", "5 C01"),
+         "REF's reading of the timing rule (DESIGN 3); instances <= 18 departure segments, <= 3 types, <= 5 locations, <= 3 days; sampling only", "5 C01"),
  "C02": ("SIM-A", "deterministic pipeline simulation + REF limit oracle over all four limit configurations",
          "Sampled exploration over seeded instances with limits on type only / segment only / both / neither and depots absent/ample/scarce/empty/zero; every segment, slot and (depot,type) pair of each returned schedule is recounted from the JSON.",
          "REF limit = min of the limits given; default depots are unlimited; overflow depot exempt", "5 C02"),
